@@ -178,7 +178,13 @@ func runCase(c *Case, w *trace.Writer, seed int64, hammer bool) {
 				toldBy[dg] = append(toldBy[dg], s)
 				toldMu.Unlock()
 				emit(Event{Ev: "tell", Node: s, To: 0, ID: id, Len: len(buf), Digest: dg, Src: nd.Addr, Dst: recvNode.Addr, Vec: vec})
-				tctx, cf := context.WithTimeout(ctx, 3*time.Second)
+				// every 6th message is told with a deadline that may end while the payload is still being
+				// written: whatever Tell returns, nothing but a told payload may ever be delivered
+				to := 3 * time.Second
+				if m%6 == 5 {
+					to = time.Duration(50+rng.Intn(400)) * time.Microsecond
+				}
+				tctx, cf := context.WithTimeout(ctx, to)
 				var err error
 				func() {
 					defer func() {
